@@ -1,4 +1,5 @@
 import ShpanVerif.Drive.C09
+import ShpanVerif.Model.JoinDemand
 /-
 Driver handler for the "T" cases of C05 (harness/run/c05_demand.go): demand of operators outside the pipeline model.
 
@@ -13,7 +14,7 @@ Driver handler for the "T" cases of C05 (harness/run/c05_demand.go): demand of o
       count is compared, plus: an empty left input decides the result, the right source hands out nothing.
   T jni <k> | <in> | <in> | …        N-way inner join (JoinMultipleSortedStreams) under Limit(k), counting sources
       obs: got=<rows> h=<elements handed out by input 0>,<… input 1>,…
-      spec: `demandInnerN` below - join_multiple_streams.go:40-146 with a counter per input, INCLUDING the final call that
+      spec: `demandInnerN` (Model/JoinDemand.lean) - join_multiple_streams.go:40-146 with a counter per input, INCLUDING the final call that
       finds an input exhausted: every lagging input advances ONE element per round, so no input is read further than
       the round in which some input ends (an unbounded input is never read on "until it catches up").
 -/
@@ -74,61 +75,10 @@ def handleJoin (left : Bool) (k : Nat) (l r : List Elem) (obs : String) : String
 
 /-! ### demand of the N-way inner join -/
 
-structure PS where
-  buf : Option Elem
-  rest : List Elem
-  out : Nat            -- elements handed out so far
-
-def pfill (s : PS) : PS :=
-  match s.buf, s.rest with
-  | none, x :: xs => { buf := some x, rest := xs, out := s.out + 1 }
-  | _, _ => s
-
-/-- join_multiple:63-78: pull into the empty slots in input order; stops at the first input that answers EOF -/
-def prefill : List PS → List PS × Bool
-  | [] => ([], true)
-  | s :: ss =>
-    let s' := pfill s
-    match s'.buf with
-    | none => (s' :: ss, false)
-    | some _ => let r := prefill ss; (s' :: r.1, r.2)
-
-/-- join_multiple:126-143: every input behind `m` advances by ONE element, in input order; stops at the first EOF -/
-def padv (m : Int) : List PS → List PS × Bool
-  | [] => ([], true)
-  | s :: ss =>
-    match s.buf with
-    | some b =>
-      if ekey b < m then
-        match s.rest with
-        | [] => (s :: ss, false)
-        | x :: xs => let r := padv m ss; ({ buf := some x, rest := xs, out := s.out + 1 } :: r.1, r.2)
-      else let r := padv m ss; (s :: r.1, r.2)
-    | none => let r := padv m ss; (s :: r.1, r.2)
-
-/-- rows still wanted → (rows produced, inputs): `emitJoin` called until `want` rows exist or the join ends -/
-def ploop : Nat → Nat → List PS → Nat × List PS
-  | 0, _, ss => (0, ss)
-  | _, 0, ss => (0, ss)
-  | fuel + 1, want + 1, ss =>
-    let (ss, ok) := prefill ss
-    if !ok then (0, ss) else
-    match maxKey ((ss.filterMap (·.buf)).map ekey) with
-    | none => (0, ss)
-    | some m =>
-      if (ss.filterMap (·.buf)).all (fun b => ekey b == m) then
-        let r := ploop fuel want (ss.map (fun s => { s with buf := none }))
-        (r.1 + 1, r.2)
-      else
-        let (ss, ok) := padv m ss
-        if !ok then (0, ss) else ploop fuel (want + 1) ss
-
+/-- the counting copy of `emitJoin` lives in Model/JoinDemand.lean (`pfill`, `prefill`, `padv`, `pinner`, `pcollect`); the
+    theorems about it are in Props/C05JoinDemand.lean (refinement of the operational model, lockstep bound, Limit(0)) -/
 def demandInnerN (k : Nat) (ins : List (List Elem)) : Nat × List Nat :=
-  if k == 0 then (0, ins.map (fun _ => 0)) else            -- Limit(0) is the empty stream: nothing is opened
-  -- first call: one pull per input, whatever the answers (join_multiple:42-57)
-  let ss := ins.map (fun l => pfill { buf := none, rest := l, out := 0 })
-  let r := ploop ((ins.map List.length).sum + ins.length + k + 2) k ss
-  (r.1, r.2.map (·.out))
+  ShpanVerif.Model.JoinDemand.demandInnerN ekey k ins
 
 def handleJoinN (k : Nat) (ins : List (List Elem)) (obs : String) : String × Bool × String :=
   let (rows, outs) := demandInnerN k ins
